@@ -1,5 +1,5 @@
 import PlumpyModel.PM.Proof3
-import PlumpyModel.PM.LProof9
+import PlumpyModel.PM.LProof12
 import PlumpyModel.Status.Model
 /-!
 # C05 — pause/play is transparent: nothing runs while paused
@@ -95,6 +95,14 @@ at most `n` deep; `endOfStepL`: the closing part of `Process.step()`; `NoInt c c
 was already there in `c`.
 -/
 namespace L
+
+/-- **no user code while paused, with listeners**: for every program, every plan of `pause()` / `play()` / `kill()` calls made by
+listeners and state-event callbacks from inside notifications (in the middle of transitions, while a pending request is being
+enacted, …) and every history of ticks and requests, no step function or continuation is ever started while the process reports
+paused — in particular not the step that follows, in the same callback, a step during whose closing part a listener paused. -/
+theorem C05_listener_nothing_runs_while_paused (P : Prog) (nf : Nat) (plan : Plan) (evs : List Ev) :
+    ∀ a ∈ (runL P (initL nf plan) evs).c.trace, a.paused = false :=
+  (runL_invP P (initL nf plan) evs (invP_init nf)).traceOk
 
 /-- **a request made while a step is closing interrupts nothing** [F24, F26]: for every configuration, plan, nesting depth and
 outcome of the step, the closing part of the step (in which listeners and state-event callbacks may `pause()`, `play()`, `kill()`
